@@ -132,6 +132,21 @@ class NameScenario(explore.Scenario):
                            else ('addmatch', c))
         return evs
 
+    def _sender(self, w, c, salt):
+        """what client c writes into the SENDER field of its request: by
+        default nothing; with 'forge', in turn another client's unique name,
+        a unique name nobody has, the name being asked for, its own"""
+        if not self.params.get('forge'):
+            return None
+        k = (c + salt) % 4
+        if k == 0:
+            return w.uniq[(c + 1) % len(w.uniq)] or ':1.1'
+        if k == 1:
+            return ':1.4242'
+        if k == 2:
+            return w.names[0]
+        return w.uniq[c] or ':1.77'
+
     # -- helpers -----------------------------------------------------------
     def _drain(self, w):
         """messages received by every peer since the last drain; complains
@@ -176,7 +191,8 @@ class NameScenario(explore.Scenario):
                 if acq is not None:
                     acquired.append((acq, n))
                 caller = c
-                serial = w.peers[c].call_bus('RequestName', 'su', [n, flags])
+                serial = w.peers[c].call_bus('RequestName', 'su', [n, flags],
+                                             sender=self._sender(w, c, flags))
             elif kind == 'rel':
                 _, c, ni = ev
                 n = w.names[ni]
@@ -184,7 +200,8 @@ class NameScenario(explore.Scenario):
                 if acq is not None:
                     acquired.append((acq, n))
                 caller = c
-                serial = w.peers[c].call_bus('ReleaseName', 's', [n])
+                serial = w.peers[c].call_bus('ReleaseName', 's', [n],
+                                             sender=self._sender(w, c, 1))
             elif kind == 'disc':
                 _, c = ev
                 for n, acq in m.disconnect(c):
@@ -581,7 +598,9 @@ def run(ctx):
         'through the client API (requestBusName with six flag / errback '
         'combinations, releaseBusName, getNameOwner, '
         'listQueuedBusNameOwners) of three real client connections on a real '
-        'bus. Long-lived bus: 254..257 / 65534..65537 connections come and '
+        'bus. One exploration has clients that write the optional SENDER '
+        'field themselves (another client\'s name, an unknown unique name, '
+        'the well-known name, their own). Long-lived bus: 254..257 / 65534..65537 connections come and '
         'go between the owner\'s and a contender\'s connection. '
         'non-trivial = history involving '
         'more than one client')
@@ -610,6 +629,12 @@ def run(ctx):
         explore.explore(ctx, NameScenario,
                         {'clients': 3, 'names': 2, 'flags': [0, 1, 2, 3, 4, 6]},
                         max_depth=3, label='3 clients, 2 names, depth 3')
+        explore.explore(ctx, NameScenario,
+                        {'clients': 3, 'names': 1, 'forge': True},
+                        max_depth=40,
+                        label='3 clients that fill in the SENDER field '
+                              'themselves (others\' names, unknown names, '
+                              'the well-known name, their own)')
     else:
         explore.explore(ctx, NameScenario, {'clients': 3, 'names': 1},
                         max_depth=60, label='3 clients, 1 name')
@@ -628,6 +653,11 @@ def run(ctx):
         explore.explore(ctx, NameScenario, {'clients': 3, 'names': 2},
                         max_depth=6, label='3 clients, 2 names, depth 6',
                         max_states=300000)
+        explore.explore(ctx, NameScenario,
+                        {'clients': 3, 'names': 1, 'forge': True},
+                        max_depth=60,
+                        label='3 clients that fill in the SENDER field '
+                              'themselves')
     explore.explore(ctx, ClientApiScenario, {'clients': 3},
                     max_depth=3 if ctx.quick else 5,
                     label='client API on a composed system, 3 clients')
